@@ -191,7 +191,8 @@ def roundtrip(ctx):
     rng = random.Random(ctx.seed + 2)
     for it in range(6 if ctx.quick() else 40):
         tps = rng.choice([1, 3, 7, 10, 100, 1000, 128, 4096, 65536])
-        dur = rng.choice([20, 60]) if tps <= 128 else (6 if tps <= 4096 else 1)
+        # also durations that are not a whole number of seconds (the run then ends inside a second)
+        dur = rng.choice([20, 60, 7.5, 12.75, 20.5]) if tps <= 128 else (rng.choice([6, 2.5]) if tps <= 4096 else rng.choice([1, 0.75]))
         params = {"ticks_per_second": tps, "duration": dur, "waiting_seconds_mean": rng.choice([0.5, 1.3, 2.0]),
                   "num_pipelines": rng.randint(1, 3), "random_seed": rng.randint(0, 10 ** 6)}
         with tempfile.TemporaryDirectory() as td:
